@@ -33,7 +33,7 @@ if "--only-mutants" not in sys.argv:
             continue
         meta = json.load(open(os.path.join(d, "meta.json")))
         props = sorted({k.split(":")[0] for k, v in meta.get("checks", {}).items() if v["verdict"] == "caught"})
-        if not props:
+        if not props or meta.get("revalidate") is False:
             continue
         subprocess.run([os.path.join(V, "tools", "seed_check.py"), n] + props, stdout=subprocess.DEVNULL, stderr=subprocess.DEVNULL)
         meta = json.load(open(os.path.join(d, "meta.json")))
